@@ -17,7 +17,7 @@ import (
 func init() {
 	register(&propDef{
 		id:      "C22",
-		explain: "Structural necessary conditions of 'compressed bodies decode to the original': (R1) every call of a function value produced by stackless.NewFunc has its 'queue full' bool result tested, and on the false outcome the wrapped function is run inline (or the bool is returned to a caller for which the same holds) - so work is never silently skipped under load; (R2) the body compressors (methods of Response that install a compressed body stream) agree on their guards, on resetting Content-Length for streams and on the epilogue, and each one's encoding token, one-shot compressor and stream compressor reach the same compression package, and none gives the buffer that holds the uncompressed body back to its pool before the one-shot compressor has read it; (R3) each is called only under a true HasAcceptEncodingBytes test of the token it stores; (R5) wherever a codec constructor's rejection of a compression level ends in a panic, the level has passed a normaliser whose every return lies in the codec's valid range (constants of the codec package), so no caller-supplied level crashes the process. (R6) a pooled codec goes back where it came from: at every call of a helper that puts its argument into a codec pool, the argument is the result of the helper that takes from the same pool global, released with the level it was acquired with - the pools share one interface type, so the compiler accepts a zstd encoder in the deflate pool. Not decided: decode(encode(x)) = x, the codecs themselves.",
+		explain: "Structural necessary conditions of 'compressed bodies decode to the original': (R1) every call of a function value produced by stackless.NewFunc has its 'queue full' bool result tested, and on the false outcome the wrapped function is run inline (or the bool is returned to a caller for which the same holds) - so work is never silently skipped under load; (R2) the body compressors (methods of Response that install a compressed body stream) agree on their guards, on resetting Content-Length for streams and on the epilogue, and each one's encoding token, one-shot compressor and stream compressor reach the same compression package, and none gives the buffer that holds the uncompressed body back to its pool before the one-shot compressor has read it; (R3) each is called only under a true HasAcceptEncodingBytes test of the token it stores; (R5) wherever a codec constructor's rejection of a compression level ends in a panic, the level has passed a normaliser whose every return lies in the codec's valid range (constants of the codec package), so no caller-supplied level crashes the process. (R6) a pooled codec goes back where it came from: at every call of a helper that puts its argument into a codec pool, the argument is the result of the helper that takes from the same pool global, released with the level it was acquired with - the pools share one interface type, so the compiler accepts a zstd encoder in the deflate pool. (R7) the helper that adds Accept-Encoding to Vary leaves the header alone only after a whole-member match over the comma-separated list (not a substring search). Not decided: decode(encode(x)) = x, the codecs themselves.",
 		run:     runC22,
 	})
 }
@@ -436,6 +436,7 @@ func runC22(p *Prog, r *Report) {
 	r.Floor("R3", "coder selection sites", nsel, 7)
 	runC22Levels(p, r)
 	runC22PoolFamily(p, r)
+	runC22Vary(p, r)
 }
 
 // runC22Levels (R5): a compression level comes from the caller and may be
@@ -783,4 +784,79 @@ func storesField(fn *ssa.Function, f *types.Var) bool {
 		}
 	}
 	return false
+}
+
+// ---- R7: Vary membership is decided token-wise -----------------------------
+//
+// addVaryBytes adds Accept-Encoding to the Vary list unless it is already a
+// member. "Already a member" has to be a whole-token test over the
+// comma-separated list: with a substring search a handler-set
+// "Vary: X-Accept-Encoding-Hint" passes for membership and the compressed
+// response goes out without the Accept-Encoding member caches rely on.
+// Every return of the function that has not written the Vary header follows a
+// true answer of a list-member matcher (a function that walks the list with
+// headerValueScanner and compares whole members).
+func runC22Vary(p *Prog, r *Report) {
+	fn := p.Func("(*ResponseHeader).addVaryBytes")
+	next := p.Func("(*headerValueScanner).next")
+	if fn == nil || next == nil {
+		r.Undecided("R7", "ResponseHeader.addVaryBytes / headerValueScanner.next", "anchor not found")
+		return
+	}
+	isMatcher := func(f *ssa.Function) bool {
+		if f == nil || f.Blocks == nil || !isBool1(f) {
+			return false
+		}
+		walks, compares := false, false
+		allCalls(f, func(b *ssa.BasicBlock, c ssa.CallInstruction) {
+			switch cal := c.Common().StaticCallee(); {
+			case cal == next:
+				walks = true
+			case cal != nil && (cal.Name() == "caseInsensitiveCompare" || cal.Name() == "EqualFold" || cal.Name() == "Equal"):
+				compares = true
+			}
+		})
+		return walks && compares
+	}
+	const (
+		bSet uint64 = 1 << iota
+		bMember
+	)
+	n, bad := 0, 0
+	var wit []string
+	x := NewExplorer(p, fn, Hooks{
+		Instr: func(x *Explorer, st *State, in ssa.Instruction) {
+			if c, ok := in.(ssa.CallInstruction); ok {
+				if f := c.Common().StaticCallee(); f != nil && recvTypeName(f) == "ResponseHeader" && strings.HasPrefix(f.Name(), "Set") {
+					st.Set(bSet)
+				}
+			}
+		},
+		Branch: func(x *Explorer, st *State, cond ssa.Value, taken bool, from *ssa.BasicBlock) {
+			pos, v := stripNot(cond)
+			if c, ok := v.(*ssa.Call); ok && isMatcher(c.Call.StaticCallee()) && taken == pos {
+				st.Set(bMember)
+			}
+		},
+		Exit: func(x *Explorer, st *State, ret *ssa.Return, pan *ssa.Panic) {
+			if ret == nil {
+				return
+			}
+			n++
+			if !st.Has(bSet) && !st.Has(bMember) {
+				bad++
+				if wit == nil {
+					wit = x.Path(st)
+				}
+			}
+		},
+	})
+	x.Run(nil)
+	r.Check("R7", "ResponseHeader.addVaryBytes: a return that leaves the Vary header as it was follows a whole-member match of the list", bad == 0 && n > 0 && !x.Aborted, p.Pos(fn.Pos()),
+		fmt.Sprintf("%d of %d explored returns leave Vary untouched without a list-member match (a substring search also 'finds' Accept-Encoding inside another member's name): the compressed response lacks Vary: Accept-Encoding", bad, n), wit...)
+}
+
+func isBool1(f *ssa.Function) bool {
+	res := f.Signature.Results()
+	return res.Len() == 1 && isBool(res.At(0).Type())
 }
